@@ -14,7 +14,7 @@
 From V Require Import Base Base_proofs Validators ProxyAll.
 From V Require ProxyCore ProxyCore_proofs ProxyWorld Hostmux Hostmux_proofs ReqHeaders ReqHeaders_proofs
   Signer Signer_proofs Signer_gen_proofs Gen_Signer Gen_Headers RespHeaders RespHeaders_proofs RespHeaders_gen_proofs
-  Callback ReqUri ReqUri_proofs.
+  Callback Callback_proofs ReqUri ReqUri_proofs.
 From Coq Require Import ZifyBool.
 
 (* ================================================================================================ *)
@@ -635,4 +635,412 @@ Proof.
              Signer_gen_proofs.g_sub3 c (rq_ip q) rs (rq_body q) Hbare Hpre eq_refl eq_refl Hconn Hclc key); assumption.
 Qed.
 
+
+(* ---- INT_every_response_hardened (C18) ---- *)
+Lemma handle_up_client d u q a now :
+  oc_client (handle_up d u q a now) =
+  logging_strip (RespHeaders.proxy_handle RespHeaders_gen_proofs.T RespHeaders_gen_proofs.H RespHeaders_gen_proofs.D
+                   RespHeaders_gen_proofs.TD (rs_cfg d u) (rs_request q) (ro_out (router d u q a now))).
+Proof. unfold ProxyAll.handle_up. destruct (redirected d q); reflexivity. Qed.
+
+Lemma logging_strip_keeps r k : k <> RespHeaders.k_user ->
+  match r, logging_strip r with
+  | RespHeaders.Resp st h, RespHeaders.Resp st' h' => st' = st /\ RespHeaders.hget k h' = RespHeaders.hget k h
+  | RespHeaders.NoResponse, RespHeaders.NoResponse => True
+  | _, _ => False
+  end.
+Proof.
+  intros Hk. destruct r as [st h|]; cbn [logging_strip]; [|exact I]. split; [reflexivity|].
+  destruct (RespHeaders.hget RespHeaders.k_user h) as [|v vs]; [reflexivity|].
+  destruct (RespHeaders.hval_str v); [reflexivity|].
+  unfold RespHeaders.hdel. rewrite RespHeaders_proofs.canon_k_user, RespHeaders_proofs.hget_hdel_raw.
+  assert (E : str_eqb k RespHeaders.k_user = false) by (apply str_eqb_neq; exact Hk). rewrite E. reflexivity.
+Qed.
+
+Lemma proxy_out_forward d u q a pr pre ops sess calls cs us u0 :
+  ro_out (proxy_out d u q a pr pre ops sess calls) = RespHeaders.OForward cs us u0 -> u0 = an_backend a.
+Proof.
+  unfold ProxyAll.proxy_out. destruct (ProxyCore.rs_out pr); [|destruct (is_xhr q)|]; cbn [ro_out]; intros H; inversion H; reflexivity.
+Qed.
+
+Lemma router_forward d u q a now cs us u0 :
+  ro_out (router d u q a now) = RespHeaders.OForward cs us u0 -> u0 = an_backend a.
+Proof.
+  unfold ProxyAll.router.
+  destruct (negb (str_eqb (ReqUri.clean_path (rq_path q)) (rq_path q))); [cbn; discriminate|].
+  destruct (route_of_path (rq_path q)); cbn [local ro_out]; try discriminate.
+  - destruct (ProxyCore.ao_err _); [cbn; discriminate | apply proxy_out_forward].
+  - destruct (Callback.oauth_callback _ _ _ _); cbn; discriminate.
+  - destruct (ProxyCore.ao_err _); cbn; discriminate.
+  - apply proxy_out_forward.
+Qed.
+
+Theorem every_response_hardened d q a now u :
+  rq_path q <> Hostmux.ping_path -> route_ext re_match (dp_ups d) (rq_host q) = Some u ->
+  (up_replace u = false -> RespHeaders.u_n1xx (an_backend a) = 0%nat) ->      (* guard: C18-K3 *)
+  match oc_client (serve d q a now) with
+  | RespHeaders.NoResponse => True
+  | RespHeaders.Resp st h =>
+      (forall k, In k RespHeaders_gen_proofs.three ->
+         RespHeaders.hget k h = match RespHeaders_proofs.effective RespHeaders_gen_proofs.T (rs_cfg d u) k with
+                                | Some v => [RespHeaders.VStr v] | None => [] end \/
+         (k = RespHeaders.k_xcto /\ RespHeaders.hget k h = [RespHeaders.VStr RespHeaders.v_nosniff] /\ st = 401)) /\
+      (dp_secure d = true -> RespHeaders.hget RespHeaders_gen_proofs.hsts_k h = [RespHeaders.VStr (snd RespHeaders_gen_proofs.H)])
+  end.
+Proof.
+  intros Hp Hr Hg.
+  destruct (serve_cases d q a now) as [[E _]|[[_ [E _]]|[_ [u' [Hr' E]]]]]; try congruence.
+  rewrite Hr in Hr'. inversion Hr'; subst u'. rewrite E, handle_up_client.
+  set (o := ro_out (router d u q a now)).
+  assert (Hn : forall cs us u0, o = RespHeaders.OForward cs us u0 -> RespHeaders.c_replace (rs_cfg d u) = false ->
+               RespHeaders.u_n1xx u0 = 0%nat).
+  { intros cs us u0 Ho Hrep. apply router_forward in Ho. subst u0. apply Hg. exact Hrep. }
+  set (r := RespHeaders.proxy_handle _ _ _ _ _ _ o).
+  assert (H3 : forall k, In k RespHeaders_gen_proofs.three ->
+     match r with
+     | RespHeaders.Resp s h =>
+         RespHeaders.hget k h = match RespHeaders_proofs.effective RespHeaders_gen_proofs.T (rs_cfg d u) k with
+                                | Some v => [RespHeaders.VStr v] | None => [] end \/
+         RespHeaders_proofs.outcome_is_auth401 o = true /\ k = RespHeaders.k_xcto /\
+         RespHeaders.hget k h = [RespHeaders.VStr RespHeaders.v_nosniff] /\ s = 401
+     | RespHeaders.NoResponse => True end).
+  { intros k Hk. apply RespHeaders_gen_proofs.three_headers_repaired; [exact Hk | | | exact Hn];
+      unfold RespHeaders_gen_proofs.three in Hk; cbn [In] in Hk; destruct Hk as [<-|[<-|[<-|[]]]]; reflexivity. }
+  assert (Hh : RespHeaders.c_secure (rs_cfg d u) = true ->
+     match r with
+     | RespHeaders.Resp _ h => RespHeaders.hget RespHeaders_gen_proofs.hsts_k h = [RespHeaders.VStr (snd RespHeaders_gen_proofs.H)]
+     | RespHeaders.NoResponse => True end).
+  { intros Hs. apply RespHeaders_gen_proofs.hsts_repaired; [reflexivity | reflexivity | exact Hs | exact Hn]. }
+  destruct r as [st h|] eqn:Er; cbn [logging_strip]; [|exact I].
+  assert (K : forall k, k <> RespHeaders.k_user ->
+     RespHeaders.hget k match RespHeaders.hget RespHeaders.k_user h with
+                        | [] => h
+                        | v :: _ => match RespHeaders.hval_str v with [] => h | _ :: _ => RespHeaders.hdel RespHeaders.k_user h end
+                        end = RespHeaders.hget k h).
+  { intros k Hk. pose proof (logging_strip_keeps (RespHeaders.Resp st h) k Hk) as L. cbn [logging_strip] in L. tauto. }
+  split.
+  - intros k Hk. rewrite K.
+    + destruct (H3 k Hk) as [H|[_ [H1 [H2 H4]]]]; [left; exact H | right; auto].
+    + unfold RespHeaders_gen_proofs.three in Hk; cbn [In] in Hk. destruct Hk as [<-|[<-|[<-|[]]]]; discriminate.
+  - intros Hs. rewrite K by discriminate. apply Hh. exact Hs.
+Qed.
+
+(* ---- INT_unrouted_host ---- *)
+Theorem unrouted_host d q a now :
+  rq_path q <> Hostmux.ping_path -> route_ext re_match (dp_ups d) (rq_host q) = None ->
+  Hostmux.route_of re_match (map up_hm (dp_ups d)) (rq_host q) = Hostmux.RDefault /\
+  serve d q a now = misdirected /\
+  oc_backend (serve d q a now) = None /\ oc_upstream (serve d q a now) = None /\
+  oc_session (serve d q a now) = ProxyCore.CNone /\ oc_calls (serve d q a now) = [] /\
+  exists h, oc_client (serve d q a now) = RespHeaders.Resp 421 h /\ RespHeaders.hget RespHeaders.k_set_cookie h = [].
+Proof.
+  intros Hp Hr. split; [rewrite route_ext_faithful, Hr; reflexivity|].
+  destruct (serve_cases d q a now) as [[E _]|[[_ [_ E]]|[_ [u [Hr' _]]]]]; try congruence.
+  rewrite E. repeat split. eexists. split; reflexivity.
+Qed.
+
+(* ... and conversely every Host the router knows is served by exactly its upstream's chain *)
+Theorem routed_host d q a now u :
+  rq_path q <> Hostmux.ping_path -> route_ext re_match (dp_ups d) (rq_host q) = Some u ->
+  oc_upstream (serve d q a now) = Some u /\
+  (redirected d q = true -> oc_backend (serve d q a now) = None /\ oc_calls (serve d q a now) = [] /\
+     oc_session (serve d q a now) = ProxyCore.CNone /\ oc_loc (serve d q a now) = LkHttps).
+Proof.
+  intros Hp Hr. destruct (serve_cases d q a now) as [[E _]|[[_ [E _]]|[_ [u' [Hr' E]]]]]; try congruence.
+  rewrite Hr in Hr'. inversion Hr'; subst u'. rewrite E. unfold ProxyAll.handle_up.
+  destruct (redirected d q); split; try reflexivity; try discriminate. intros _. repeat split.
+Qed.
+
+
+(* ================================================================================================ *)
+(* Part 4 — what the proxy issues, and isolation over histories *)
+
+(* anything Authenticate re-saves is bound to the Host it was presented on and to the provider slug of
+   the upstream that authenticated it (C01: authenticate_saved_preserves + authenticate_sound) *)
+Lemma authenticate_saved_bound now c pol host ck a s' :
+  ProxyCore.ao_cookie (ProxyCore.authenticate lower now c pol host ck a) = ProxyCore.CSaved s' ->
+  ProxyCore.s_upstream s' = host /\ ProxyCore.s_slug s' = ProxyCore.c_slug c.
+Proof.
+  destruct ck as [| |s]; [cbn; discriminate | cbn; discriminate |]. intros H.
+  destruct (ProxyCore_proofs.authenticate_saved_preserves lower _ _ _ _ _ _ _ H) as [_ [H2 [H3 [_ [_ [He _]]]]]].
+  destruct (ProxyCore_proofs.authenticate_sound lower _ _ _ _ _ _ He) as [s0 [E [O1 [O2 _]]]]. inversion E; subst s0.
+  split; congruence.
+Qed.
+
+Lemma proxy_handle_saved_bound now c pol r a s' :
+  ProxyCore.rs_cookie (ProxyCore.proxy_handle lower now c pol r a) = ProxyCore.CSaved s' ->
+  ProxyCore.s_upstream s' = ProxyCore.r_host r /\ ProxyCore.s_slug s' = ProxyCore.c_slug c.
+Proof.
+  unfold ProxyCore.proxy_handle. destruct (ProxyCore.whitelisted pol r); [cbn; discriminate|].
+  destruct (ProxyCore.ao_err (ProxyCore.authenticate lower now c pol (ProxyCore.r_host r) (ProxyCore.r_cookie r) a)); cbn;
+    apply authenticate_saved_bound.
+Qed.
+
+Lemma handle_saved_bound now c pol r a s' :
+  ProxyCore.rs_cookie (ProxyCore.handle lower now c pol r a) = ProxyCore.CSaved s' ->
+  ProxyCore.s_upstream s' = ProxyCore.r_host r /\ ProxyCore.s_slug s' = ProxyCore.c_slug c.
+Proof.
+  unfold ProxyCore.handle. destruct (ProxyCore.r_endpoint r).
+  - apply proxy_handle_saved_bound.
+  - cbn. apply authenticate_saved_bound.
+  - destruct (ProxyCore.ao_err (ProxyCore.authenticate lower now c pol (ProxyCore.r_host r) (ProxyCore.r_cookie r) a)) eqn:Ee.
+    + cbn. apply authenticate_saved_bound.
+    + cbn. destruct (ProxyCore.rs_cookie (ProxyCore.proxy_handle lower now c pol r a)) eqn:Ep.
+      * apply authenticate_saved_bound.
+      * discriminate.
+      * intros H; inversion H; subst. eapply proxy_handle_saved_bound. exact Ep.
+Qed.
+
+Lemma redeem_of_ok a e : redeem_of a = Callback.RedeemOk e ->
+  exists acc rt ex, an_redeem_body a = Some (e, acc, rt, ex).
+Proof.
+  unfold redeem_of. destruct (an_redeem a) as [c|]; [|discriminate]. destruct (c =? 200)%Z; [|discriminate].
+  destruct (an_redeem_body a) as [[[[e0 acc] rt] ex]|]; [|discriminate]. intros H; inversion H; subst. eauto.
+Qed.
+
+(* the session a successful callback mints: stamped with THIS Host and the routed upstream's provider slug,
+   for the redeemed e-mail, only after the routed upstream's login gate admitted it (C13_login_of_upstream,
+   C06_callback_decision, C11) *)
+Lemma router_saved_bound d u q a now s :
+  ro_session (router d u q a now) = ProxyCore.CSaved s ->
+  ProxyCore.s_upstream s = rq_host q /\ ProxyCore.s_slug s = slug_of d u.
+Proof.
+  unfold ProxyAll.router.
+  destruct (negb (str_eqb (ReqUri.clean_path (rq_path q)) (rq_path q))); [cbn; discriminate|].
+  destruct (route_of_path (rq_path q)); cbn [local ro_session]; try discriminate.
+  - (* favicon *)
+    destruct (ProxyCore.ao_err _).
+    + cbn [local ro_session]. intros H. apply handle_saved_bound in H. exact H.
+    + unfold ProxyAll.proxy_out. destruct (ProxyCore.rs_out _); [|destruct (is_xhr q)|]; cbn [ro_session];
+        intros H; apply handle_saved_bound in H; exact H.
+  - (* callback *)
+    destruct (Callback.oauth_callback true true 1 _) as [st|cs loc] eqn:Ecb; cbn [local ro_session]; [discriminate|].
+    apply Callback_proofs.callback_ok_iff in Ecb.
+    destruct Ecb as (v1 & n1 & p1 & v2 & n2 & p2 & email & _ & _ & _ & _ & _ & _ & _ & _ & _ & Hr & _).
+    cbn [Callback.cb_redeem cb_request] in Hr. apply redeem_of_ok in Hr as [acc [rt [ex Hb]]].
+    intros H; inversion H; subst s. unfold ProxyAll.mint_session. rewrite Hb. split; reflexivity.
+  - (* auth *)
+    destruct (ProxyCore.ao_err _); cbn [local ro_session]; intros H; apply handle_saved_bound in H; exact H.
+  - (* proxy *)
+    unfold ProxyAll.proxy_out. destruct (ProxyCore.rs_out _); [|destruct (is_xhr q)|]; cbn [ro_session];
+      intros H; apply handle_saved_bound in H; exact H.
+Qed.
+
+Theorem issued_session_bound d q a now s u :
+  oc_session (serve d q a now) = ProxyCore.CSaved s -> oc_upstream (serve d q a now) = Some u ->
+  route_ext re_match (dp_ups d) (rq_host q) = Some u /\
+  ProxyCore.s_upstream s = rq_host q /\ ProxyCore.s_slug s = slug_of d u.
+Proof.
+  intros Hs Hu.
+  destruct (serve_cases d q a now) as [[_ E]|[[_ [_ E]]|[_ [u' [Hr E]]]]]; rewrite E in Hs, Hu; try discriminate.
+  unfold ProxyAll.handle_up in Hs, Hu. destruct (redirected d q); cbn [oc_session oc_upstream] in Hs, Hu; [discriminate|].
+  inversion Hu; subst u'. split; [exact Hr|]. apply router_saved_bound in Hs. exact Hs.
+Qed.
+
+(* the invariant of the history machine *)
+Definition bound (d : deployment) (st : hstate) : Prop :=
+  forall m, In m (hs_minted st) ->
+    ProxyCore.s_upstream (mi_session m) = mi_host m /\
+    route_ext re_match (dp_ups d) (mi_host m) = Some (mi_upstream m) /\
+    ProxyCore.s_slug (mi_session m) = slug_of d (mi_upstream m).
+
+Notation hstep := (hstep re_match re_replace lower opens).
+Notation hrun := (hrun re_match re_replace lower opens).
+
+Lemma hstep_bound d st e : bound d st -> bound d (fst (hstep d st e)).
+Proof.
+  intros Hb. unfold ProxyAll.hstep. cbn [fst hs_minted].
+  set (o := serve d (ev_req e) (ev_ans e) (hs_now st + Z.max 0 (ev_dt e))%Z).
+  destruct (oc_session o) as [| |s] eqn:Es; try exact Hb.
+  destruct (oc_upstream o) as [u|] eqn:Eu; [|exact Hb].
+  intros m Hin. cbn [hs_minted] in Hin. apply in_app_or in Hin as [Hin|[<-|[]]]; [apply Hb; exact Hin|].
+  cbn [mi_session mi_host mi_upstream].
+  destruct (issued_session_bound d (ev_req e) (ev_ans e) _ s u Es Eu) as [H1 [H2 H3]]. auto.
+Qed.
+
+Lemma hstep_mono d st e m : In m (hs_minted st) -> In m (hs_minted (fst (hstep d st e))).
+Proof.
+  intros Hin. unfold ProxyAll.hstep. cbn [fst hs_minted].
+  destruct (oc_session _); try exact Hin. destruct (oc_upstream _); [apply in_or_app; left|]; exact Hin.
+Qed.
+
+Lemma hrun_bound d : forall evs st st' tr, hrun d st evs = (st', tr) -> bound d st -> bound d st'.
+Proof.
+  induction evs as [|e evs IH]; intros st st' tr H Hb; cbn [ProxyAll.hrun] in H.
+  - inversion H; subst. exact Hb.
+  - destruct (hstep d st e) as [st1 o] eqn:E1. destruct (hrun d st1 evs) as [st2 tr2] eqn:E2.
+    inversion H; subst. eapply IH; [exact E2|]. pose proof (hstep_bound d st e Hb) as Hb1. rewrite E1 in Hb1. exact Hb1.
+Qed.
+
+Lemma hrun_trace d : forall evs st st' tr e o, hrun d st evs = (st', tr) -> In (e, o) tr ->
+  exists now, o = serve d (ev_req e) (ev_ans e) now.
+Proof.
+  induction evs as [|e0 evs IH]; intros st st' tr e o H Hin; cbn [ProxyAll.hrun] in H.
+  - inversion H; subst. destruct Hin.
+  - destruct (hstep d st e0) as [st1 o0] eqn:E1. destruct (hrun d st1 evs) as [st2 tr2] eqn:E2.
+    inversion H; subst. destruct Hin as [Heq|Hin].
+    + inversion Heq; subst. unfold ProxyAll.hstep in E1. inversion E1. eauto.
+    + eapply IH; eauto.
+Qed.
+
+Definition hinit : hstate := {| hs_now := 0%Z; hs_minted := [] |}.
+
+(* INT_isolation_end_to_end: over ALL histories of requests (logins among them) on any hosts with any
+   cookies, answers and time steps: if a backend receives an IDENTIFIED request (identity headers asserted
+   at handler time) and the presented cookie opens to a session the proxy issued at some point of the history on
+   host h1 under upstream u1, then this request's Host is h1 and the backend is u1's. *)
+Theorem isolation_end_to_end d evs st' tr :
+  hrun d hinit evs = (st', tr) ->
+  forall e o bv, In (e, o) tr -> oc_backend o = Some bv ->
+  ReqHeaders.h_get ReqHeaders.k_xfe (bk_handler bv) <> [] ->
+  forall m, In m (hs_minted st') -> session_cookie d (ev_req e) = ProxyCore.Sealed (mi_session m) ->
+  rq_host (ev_req e) = mi_host m /\ oc_upstream o = Some (mi_upstream m) /\
+  bk_target bv = Hostmux.target re_replace (mi_host m) (up_hm (mi_upstream m)).
+Proof.
+  intros Hrun e o bv Hin Hb Hid m Hm Hck.
+  assert (Hbd : bound d st') by (eapply hrun_bound; [exact Hrun | intros m0 []]).
+  destruct (hrun_trace d _ _ _ _ _ _ Hrun Hin) as [now ->].
+  destruct (backend_reached_only_if d (ev_req e) (ev_ans e) now bv Hb)
+    as [u [Hr [_ [Hu [_ [Ht [_ [_ [_ [_ [_ [_ [Hmed _]]]]]]]]]]]]].
+  destruct (Hbd m Hm) as [B1 [B2 B3]].
+  assert (Hhost : rq_host (ev_req e) = mi_host m).
+  { destruct Hmed as [[_ [_ Habs]] | [s [s' [Hs [Hok [_ [_ Hwl]]]]]]].
+    - exfalso. apply Hid. apply Habs. unfold ReqHeaders.identity_keys. cbn. tauto.
+    - rewrite Hck in Hs. inversion Hs; subst s. destruct Hok as [_ [Hup _]]. congruence. }
+  split; [exact Hhost|]. rewrite Hhost in Hr. rewrite B2 in Hr. inversion Hr; subst u.
+  split; [exact Hu|]. rewrite Ht, Hhost. reflexivity.
+Qed.
+
+
+(* ---- two more adapters: the outgoing Host (Hostmux.forward vs Signer.director) and the minted session
+        (ProxyAll.mint_session vs ProxyWorld.login_session) ---- *)
+Lemma sign_host cv cvh c r : Signer.r_host (Signer.sign cv cvh c r) = Signer.r_host r.
+Proof. unfold Signer.sign. destruct (Signer.c_skip c), (Signer.c_hmac c), (Signer.c_signer c); reflexivity. Qed.
+
+Theorem host_views_agree d u q pre id :
+  rq_host q <> [] ->
+  bk_host (backend_of d u q pre id) = Signer.r_host (bk_req (backend_of d u q pre id)).
+Proof.
+  intros Hh. cbn [ProxyAll.backend_of bk_host bk_req Hostmux.forward Hostmux.r_fwd_host hm_request Hostmux.q_host].
+  unfold received_request. cbn [Signer.wire Signer.r_host Signer.rp_edits Signer.director].
+  rewrite sign_host. cbn [signer_request Signer.r_host sg_cfg Signer.c_preserve_host Signer.c_thost].
+  destruct (Hostmux.u_preserve (up_hm u)); [|reflexivity].
+  unfold Hostmux.preserved_host. destruct (rq_host q); [congruence | reflexivity].
+Qed.
+
+Theorem mint_is_login_session d u q a now e acc rt ex :
+  an_redeem_body a = Some (e, acc, rt, ex) ->
+  let s := mint_session lower d u q a now in
+  let s0 := ProxyWorld.login_session (pc_cfg d u) (fun _ => pc_pol u) now (rq_host q) e acc rt ex (groups_answer_of a) in
+  ProxyCore.s_user s = user_of_email lower e /\
+  ProxyCore.s_slug s = ProxyCore.s_slug s0 /\ ProxyCore.s_email s = ProxyCore.s_email s0 /\
+  ProxyCore.s_access s = ProxyCore.s_access s0 /\ ProxyCore.s_refresh_tok s = ProxyCore.s_refresh_tok s0 /\
+  ProxyCore.s_refresh_dl s = ProxyCore.s_refresh_dl s0 /\ ProxyCore.s_lifetime_dl s = ProxyCore.s_lifetime_dl s0 /\
+  ProxyCore.s_valid_dl s = ProxyCore.s_valid_dl s0 /\ ProxyCore.s_grace s = ProxyCore.s_grace s0 /\
+  ProxyCore.s_groups s = ProxyCore.s_groups s0 /\ ProxyCore.s_upstream s = ProxyCore.s_upstream s0.
+Proof. intros Hb. cbn zeta. unfold ProxyAll.mint_session. rewrite Hb. repeat split. Qed.
+
 End Composite.
+
+(* ================================================================================================ *)
+(* Part 5 — a concrete deployment: the hypotheses of the theorems are satisfiable and the conclusions
+   are not vacuous *)
+Module Ex.
+Import Coq.Strings.String.StringSyntax.
+Definition bs := RespHeaders.bs.
+Arguments bs s%string_scope.
+
+Definition h_app : str := bs "app.example.test".
+Definition h_rw : str := bs "x.rw.test".
+Definition b_app : str := bs "127.0.0.1:9001".
+Definition b_rw : str := bs "127.0.0.1:9002".
+Definition ex_match (p s : str) : bool := has_suffix s p || has_prefix s p.   (* stands for regexp *)
+Definition ex_replace (p s tmpl : str) : str := tmpl.
+
+Definition up_app : iupstream :=
+  {| up_hm := {| Hostmux.u_route := Hostmux.Simple h_app b_app;
+                 Hostmux.u_policy := {| p_addresses := []; p_domains := [bs "example.com"]; p_groups := [] |};
+                 Hostmux.u_slug := []; Hostmux.u_skip := [bs "/open/"]; Hostmux.u_preserve := false |};
+     up_overrides := [(bs "X-Frame-Options", bs "DENY")]; up_inject := [(bs "X-Custom", bs "op")];
+     up_replace := true; up_hmac := Some (bs "k"); up_skip_sign := false |}.
+Definition up_rw : iupstream :=
+  {| up_hm := {| Hostmux.u_route := Hostmux.Rewrite (bs ".rw.test") b_rw;
+                 Hostmux.u_policy := {| p_addresses := []; p_domains := [bs "*"]; p_groups := [] |};
+                 Hostmux.u_slug := bs "okta"; Hostmux.u_skip := []; Hostmux.u_preserve := true |};
+     up_overrides := []; up_inject := []; up_replace := false; up_hmac := None; up_skip_sign := false |}.
+Definition dep : deployment :=
+  {| dp_ups := [up_app; up_rw]; dp_slug := bs "google"; dp_L := 86400%Z; dp_V := 600%Z; dp_G := 0%Z;
+     dp_secure := true; dp_httponly := true; dp_cookie_name := bs "_sso_proxy"; dp_cookie_domain := [];
+     dp_signer := Some 1; dp_auth_base := bs "https://auth.example" |}.
+
+Definition sess (host slug : str) : ProxyCore.session :=
+  {| ProxyCore.s_slug := slug; ProxyCore.s_email := bs "bob@example.com"; ProxyCore.s_user := bs "bob";
+     ProxyCore.s_access := bs "at"; ProxyCore.s_refresh_tok := bs "rt"; ProxyCore.s_refresh_dl := 5000%Z;
+     ProxyCore.s_lifetime_dl := 90000%Z; ProxyCore.s_valid_dl := 2000%Z; ProxyCore.s_grace := None;
+     ProxyCore.s_groups := [bs "eng"]; ProxyCore.s_upstream := host |}.
+Definition ex_opens (v : str) : option ProxyCore.session :=
+  if str_eqb v (bs "SEALED-APP") then Some (sess h_app (bs "google"))
+  else if str_eqb v (bs "SEALED-RW") then Some (sess h_rw (bs "okta")) else None.
+
+Definition mkreq (host path : str) (client : list (str * str)) : request :=
+  {| rq_host := host; rq_method := bs "GET"; rq_path := path; rq_rawquery := bs "a=1"; rq_client := client; rq_body := [];
+     rq_chunked := false; rq_ip := bs "10.0.0.7"; cb_form_ok := true; cb_error := []; cb_code := [];
+     cb_state := Callback.WJunk 0; cb_csrf := None |}.
+Definition quiet : answers :=
+  {| an_auth := {| ProxyCore.a_refresh := ProxyCore.Transport; ProxyCore.a_refresh_body := None;
+                   ProxyCore.a_validate := ProxyCore.Transport; ProxyCore.a_profile := ProxyCore.Transport;
+                   ProxyCore.a_profile_body := None |};
+     an_redeem := ProxyCore.Transport; an_redeem_body := None;
+     an_backend := {| RespHeaders.u_n1xx := 0; RespHeaders.u_status := 200;
+                      RespHeaders.u_lines := [(bs "X-Frame-Options", bs "ALLOWALL"); (bs "Strict-Transport-Security", bs "max-age=0")];
+                      RespHeaders.u_announced := []; RespHeaders.u_trailers := [] |} |}.
+Definition https_hdr : str * str := (bs "X-Forwarded-Proto", bs "https").
+Definition q_app : request :=
+  mkreq h_app (bs "/x/page")
+    [https_hdr; (bs "Cookie", bs "theme=dark; _sso_proxy=SEALED-APP"); (bs "x-forwarded-email", bs "mallory@evil");
+     (bs "Authorization", bs "Bearer abc")].
+Definition q_replay : request := mkreq h_rw (bs "/x/page") [https_hdr; (bs "Cookie", bs "_sso_proxy=SEALED-APP")].
+Definition q_rw : request := mkreq h_rw (bs "/x/page") [https_hdr; (bs "Cookie", bs "_sso_proxy=SEALED-RW")].
+Definition q_none : request := mkreq (bs "nowhere.example") (bs "/x/page") [https_hdr; (bs "Cookie", bs "_sso_proxy=SEALED-APP")].
+Definition q_plain : request := mkreq h_app (bs "/x/page") [(bs "Cookie", bs "_sso_proxy=SEALED-APP")].
+
+Definition run (q : request) : outcome := serve ex_match ex_replace lower_ascii ex_opens dep q quiet 1000%Z.
+
+(* the request with its own session is forwarded to ITS backend, carries exactly the session's identity
+   (the client's X-Forwarded-Email is gone), the other cookie but not the session cookie, the operator's
+   header, and both signatures verify over what is received; the response is hardened although the backend
+   tried to weaken it *)
+Example served_on_own_upstream :
+  match oc_backend (run q_app) with
+  | Some bv =>
+      bk_target bv = b_app /\ bk_host bv = b_app /\
+      Signer.hvals Signer.x_forwarded_email (Signer.r_headers (bk_req bv)) = [bs "bob@example.com"] /\
+      Signer.hvals Signer.x_forwarded_user (Signer.r_headers (bk_req bv)) = [bs "bob"] /\
+      Signer.hvals Signer.x_forwarded_groups (Signer.r_headers (bk_req bv)) = [bs "eng"] /\
+      Signer.hvals Signer.cookie_h (Signer.r_headers (bk_req bv)) = [bs "theme=dark"] /\
+      Signer.hvals (bs "X-Custom") (Signer.r_headers (bk_req bv)) = [bs "op"] /\
+      Signer.verify_rsa Signer_gen_proofs.g_cov (Signer.published_certs (sg_cfg ex_replace dep up_app h_app)) (bk_req bv) = Some true /\
+      Signer.verify_hmac Signer_gen_proofs.g_covh (bs "k") (bk_req bv) = 3 /\
+      Signer.conn_safe Signer_gen_proofs.g_protected (Signer.r_headers (signer_request q_app (bk_handler bv))) = true /\
+      Signer.cl_canonical (signer_request q_app (bk_handler bv)) = true
+  | None => False
+  end /\
+  match oc_client (run q_app) with
+  | RespHeaders.Resp st h =>
+      st = 200 /\ RespHeaders.hget RespHeaders.k_xfo h = [RespHeaders.VStr (bs "DENY")] /\
+      RespHeaders.hget RespHeaders.k_xcto h = [RespHeaders.VStr (bs "nosniff")] /\
+      RespHeaders.hget RespHeaders_gen_proofs.hsts_k h = [RespHeaders.VStr (bs "max-age=31536000")]
+  | RespHeaders.NoResponse => False
+  end.
+Proof. vm_compute. repeat split. Qed.
+
+(* the same cookie on the other upstream's host: no backend, sign-in at THAT upstream's provider, cookie cleared;
+   an unrouted host: 421; plain http under secure cookies: 301, nothing else happens *)
+Example refused_elsewhere :
+  oc_backend (run q_replay) = None /\ oc_loc (run q_replay) = LkSignIn (bs "okta") /\ oc_session (run q_replay) = ProxyCore.CCleared /\
+  (match oc_backend (run q_rw) with Some bv => bk_target bv = b_rw /\ bk_host bv = h_rw | None => False end) /\
+  run q_none = misdirected /\
+  oc_backend (run q_plain) = None /\ oc_loc (run q_plain) = LkHttps /\
+  match oc_client (run q_plain) with RespHeaders.Resp st _ => st = 301 | _ => False end.
+Proof. vm_compute. repeat split. Qed.
+End Ex.
